@@ -11,7 +11,10 @@ From Coq Require Import Lia NArith.
 Section Param.
 Variable cx : ctx.
 Variable rho : list val -> list val -> Prop.
-Hypothesis rho_upd : forall A B i v, rho A B -> rho (upd A i v) (upd B i v).
+Variable writable : nat -> Prop.         (* the slots the expression may write *)
+Hypothesis rho_upd : forall A B i x, writable i -> rho A B -> rho (upd A i (V x)) (upd B i (V x)).
+Variable kout_ok : Prop.                 (* the expression may contain \K, which writes slot 0 *)
+Hypothesis kout_writable : kout_ok -> writable 0.
 Variable readable : N -> Prop.
 Hypothesis rho_read : forall A B grp, readable grp -> rho A B ->
   getcap A (2 * N.to_nat grp) = getcap B (2 * N.to_nat grp) /\
@@ -24,11 +27,18 @@ Definition lrel : list sst -> list sst -> Prop := Forall2 srel.
 Fixpoint refs_ok (e : expr) : Prop :=
   match e with
   | Backref grp | BackrefExistsCondition grp => readable grp
+  | KeepOut => kout_ok
   | Concat es | Alt es => (fix go (l : list expr) : Prop := match l with [] => True | x :: r => refs_ok x /\ go r end) es
   | Group c | LookAround c _ | Repeat c _ _ _ | AtomicGroup c => refs_ok c
   | Conditional c y n => refs_ok c /\ refs_ok y /\ refs_ok n
   | _ => True
   end.
+(* every slot the expression writes is writable: its own groups' slots, and slot 0 for \K *)
+Definition wrl (g n : nat) : Prop :=
+  forall h, g <= h < g + n -> writable (2 * h) /\ writable (2 * h + 1).
+Definition wr_ok (g : nat) (e : expr) : Prop := wrl g (ngroups e).
+Lemma wrl_sub g n g' n' : wrl g n -> g <= g' -> g' + n' <= g + n -> wrl g' n'.
+Proof. intros H H1 H2 h Hh. apply H. lia. Qed.
 Fixpoint refs_ok_list (l : list expr) : Prop := match l with [] => True | x :: r => refs_ok x /\ refs_ok_list r end.
 Lemma refs_ok_concat es : refs_ok (Concat es) = refs_ok_list es. Proof. induction es; simpl in *; congruence. Qed.
 Lemma refs_ok_alt es : refs_ok (Alt es) = refs_ok_list es. Proof. induction es; simpl in *; congruence. Qed.
@@ -90,18 +100,21 @@ Proof.
   specialize (H j). destruct (f j), (f' j); cbn in H; try contradiction; auto.
 Qed.
 
-Definition PR (e : expr) : Prop := refs_ok e -> forall fuel g a b, srel a b ->
+Definition PR (e : expr) : Prop := refs_ok e -> forall fuel g a b, wr_ok g e -> srel a b ->
   lrel (sem cx e fuel g a) (sem cx e fuel g b).
 
-Lemma try_alt_rel x : PR x -> refs_ok x -> forall fuel gx ix A B, rho A B ->
+Lemma ngl_cons' x r : ngroups_list (x :: r) = ngroups x + ngroups_list r. Proof. reflexivity. Qed.
+
+Lemma try_alt_rel x : PR x -> refs_ok x -> forall fuel gx ix A B, wr_ok gx x -> rho A B ->
   orel (first_some (fun j => first_ending (sem cx x fuel gx (j, A)) ix) (backs cx ix ix))
        (first_some (fun j => first_ending (sem cx x fuel gx (j, B)) ix) (backs cx ix ix)).
 Proof.
-  intros Hx Hr fuel gx ix A B HAB. apply first_some_rel. intros j. apply first_ending_rel.
+  intros Hx Hr fuel gx ix A B Hw HAB. apply first_some_rel. intros j. apply first_ending_rel.
   apply Hx; auto. split; auto.
 Qed.
 
 Lemma found_rel fuel ix A B : rho A B -> forall es, Forall PR es -> refs_ok_list es -> forall g,
+  wrl g (ngroups_list es) ->
   orel ((fix go (g : nat) (l : list expr) : option sst :=
            match l with [] => None
            | x :: r => match first_some (fun j => first_ending (sem cx x fuel g (j, A)) ix) (backs cx ix ix)
@@ -111,12 +124,15 @@ Lemma found_rel fuel ix A B : rho A B -> forall es, Forall PR es -> refs_ok_list
            | x :: r => match first_some (fun j => first_ending (sem cx x fuel g (j, B)) ix) (backs cx ix ix)
                        with Some s => Some s | None => go (g + ngroups x) r end end) g es).
 Proof.
-  intros HAB es HF. induction HF as [|x r Hx Hr IH]; intros Hok g; [exact I|].
-  destruct Hok as [Hox Hor]. pose proof (try_alt_rel x Hx Hox fuel g ix A B HAB) as Ht.
+  intros HAB es HF. induction HF as [|x r Hx Hr IH]; intros Hok g Hw; [exact I|].
+  rewrite ngl_cons' in Hw.
+  destruct Hok as [Hox Hor]. pose proof (try_alt_rel x Hx Hox fuel g ix A B (wrl_sub g (ngroups x + ngroups_list r) g (ngroups x) Hw (le_n _) ltac:(lia)) HAB) as Ht.
   destruct (first_some _ (backs cx ix ix)) as [s|], (first_some _ (backs cx ix ix)) as [s'|]; cbn in Ht; try contradiction; auto.
+  apply IH; auto. eapply wrl_sub; eauto; lia.
 Qed.
 
 Lemma split_rel fuel ix A B : rho A B -> forall es, Forall PR es -> refs_ok_list es -> forall g,
+  wrl g (ngroups_list es) ->
   lrel ((fix go (g : nat) (l : list expr) : list sst :=
            match l with [] => []
            | x :: r => match first_some (fun j => first_ending (sem cx x fuel g (j, A)) ix) (backs cx ix ix)
@@ -126,9 +142,10 @@ Lemma split_rel fuel ix A B : rho A B -> forall es, Forall PR es -> refs_ok_list
            | x :: r => match first_some (fun j => first_ending (sem cx x fuel g (j, B)) ix) (backs cx ix ix)
                        with Some s => [(ix, snd s)] | None => [] end ++ go (g + ngroups x) r end) g es).
 Proof.
-  intros HAB es HF. induction HF as [|x r Hx Hr IH]; intros Hok g; [constructor|].
-  destruct Hok as [Hox Hor]. pose proof (try_alt_rel x Hx Hox fuel g ix A B HAB) as Ht.
-  apply lrel_app; [|apply IH; auto].
+  intros HAB es HF. induction HF as [|x r Hx Hr IH]; intros Hok g Hw; [constructor|].
+  rewrite ngl_cons' in Hw.
+  destruct Hok as [Hox Hor]. pose proof (try_alt_rel x Hx Hox fuel g ix A B (wrl_sub g (ngroups x + ngroups_list r) g (ngroups x) Hw (le_n _) ltac:(lia)) HAB) as Ht.
+  apply lrel_app; [|apply IH; auto; eapply wrl_sub; eauto; lia].
   destruct (first_some _ (backs cx ix ix)) as [s|], (first_some _ (backs cx ix ix)) as [s'|]; cbn in Ht; try contradiction.
   - apply lrel_one. split; [reflexivity|apply Ht].
   - constructor.
@@ -141,32 +158,38 @@ Proof.
          match e with
          | Alt _ => idtac
          | _ => assert (H1 : PR e); [|split; [exact H1|constructor; [exact H1|constructor]]] end end.
-  - intros _ fuel g [ix A] [jx B] [H1 H2]; cbn [fst snd] in *; subst. cbn [sem]. apply lrel_one. split; auto.
-  - intros _ fuel g [ix A] [jx B] [H1 H2]; cbn [fst snd] in *; subst. cbn [sem].
+  - intros _ fuel g [ix A] [jx B] _ [H1 H2]; cbn [fst snd] in *; subst. cbn [sem]. apply lrel_one. split; auto.
+  - intros _ fuel g [ix A] [jx B] _ [H1 H2]; cbn [fst snd] in *; subst. cbn [sem].
     destruct (nth_error (c_text cx) jx); [|constructor]. destruct (nl || negb (n =? 10)); [|constructor].
     apply lrel_one. split; auto.
-  - intros _ fuel g [ix A] [jx B] [H1 H2]; cbn [fst snd] in *; subst. cbn [sem].
+  - intros _ fuel g [ix A] [jx B] _ [H1 H2]; cbn [fst snd] in *; subst. cbn [sem].
     destruct (assert_holds cx a jx); [|constructor]. apply lrel_one. split; auto.
-  - intros _ fuel g [ix A] [jx B] [H1 H2]; cbn [fst snd] in *; subst. cbn [sem]. destruct c.
+  - intros _ fuel g [ix A] [jx B] _ [H1 H2]; cbn [fst snd] in *; subst. cbn [sem]. destruct c.
     + destruct (lit_ci cx _ jx); [|constructor]. apply lrel_one. split; auto.
     + destruct (lit_at _ jx v); [|constructor]. apply lrel_one. split; auto.
   - (* Concat *)
     assert (Hks : Forall PR es) by (eapply Forall_impl; [|exact H]; intros a Ha; apply Ha).
-    intros Hr fuel g a b Hab. rewrite !sem_concat_eq. rewrite refs_ok_concat in Hr. clear H.
-    revert g a b Hab. induction Hks as [|x r Hx Hrr IH]; intros g a b Hab; cbn [sem_cat].
+    intros Hr fuel g a b Hw Hab. rewrite !sem_concat_eq. rewrite refs_ok_concat in Hr.
+    unfold wr_ok in Hw. rewrite ngroups_concat in Hw. clear H.
+    revert g a b Hw Hab. induction Hks as [|x r Hx Hrr IH]; intros g a b Hw Hab; cbn [sem_cat].
     + now apply lrel_one.
-    + destruct Hr as [Hrx Hrl]. apply lrel_flat_map; [apply Hx; auto|]. intros; apply IH; auto.
+    + destruct Hr as [Hrx Hrl]. rewrite ngl_cons' in Hw.
+      apply lrel_flat_map; [apply Hx; auto; eapply wrl_sub; eauto; lia|].
+      intros; apply IH; auto. eapply wrl_sub; eauto; lia.
   - (* Alt *)
     assert (Hks : Forall PR es) by (eapply Forall_impl; [|exact H]; intros a Ha; apply Ha).
     split; [|exact Hks].
-    intros Hr fuel g a b Hab. rewrite !sem_alt_eq. rewrite refs_ok_alt in Hr. clear H.
-    revert g. induction Hks as [|x r Hx Hrr IH]; intros g; cbn [sem_alts]; [constructor|].
-    destruct Hr as [Hrx Hrl]. apply lrel_app; [apply Hx; auto|apply IH; auto].
-  - (* Group *) destruct IHe as [IHe _]. intros Hr fuel g [ix A] [jx B] [H1 H2]; cbn [fst snd] in *; subst. cbn [sem].
-    apply lrel_map; [apply IHe; auto; split; cbn; auto|].
+    intros Hr fuel g a b Hw Hab. rewrite !sem_alt_eq. rewrite refs_ok_alt in Hr.
+    unfold wr_ok in Hw. rewrite ngroups_alt in Hw. clear H.
+    revert g Hw. induction Hks as [|x r Hx Hrr IH]; intros g Hw; cbn [sem_alts]; [constructor|].
+    destruct Hr as [Hrx Hrl]. rewrite ngl_cons' in Hw.
+    apply lrel_app; [apply Hx; auto; eapply wrl_sub; eauto; lia|apply IH; auto; eapply wrl_sub; eauto; lia].
+  - (* Group *) destruct IHe as [IHe _]. intros Hr fuel g [ix A] [jx B] Hw [H1 H2]; cbn [fst snd] in *; subst. cbn [sem].
+    unfold wr_ok in Hw. cbn [ngroups] in Hw. destruct (Hw g ltac:(lia)) as [W1 W2].
+    apply lrel_map; [apply IHe; auto; [eapply wrl_sub; eauto; lia|split; cbn; auto]|].
     intros x y [Hx1 Hx2]. split; cbn [fst snd]; auto. rewrite Hx1. auto.
-  - (* LookAround *) destruct IHe as [IHe IHalts]. intros Hr fuel g [ix A] [jx B] [H1 H2]; cbn [fst snd] in *; subst.
-    cbn [refs_ok] in Hr. destruct la.
+  - (* LookAround *) destruct IHe as [IHe IHalts]. intros Hr fuel g [ix A] [jx B] Hw [H1 H2]; cbn [fst snd] in *; subst.
+    cbn [refs_ok] in Hr. unfold wr_ok in Hw. cbn [ngroups] in Hw. destruct la.
     + cbn [sem]. apply lrel_map; [apply lrel_firstn, IHe; auto; split; auto|]. intros x y [_ Hx2]. split; auto.
     + cbn [sem]. assert (Hl : lrel (sem cx e fuel g (jx, A)) (sem cx e fuel g (jx, B))) by (apply IHe; auto; split; auto).
       inversion Hl; [apply lrel_one; split; auto|constructor].
@@ -183,10 +206,12 @@ Proof.
                              | x :: r => match first_some (fun j => first_ending (sem cx x fuel g (j, B)) jx) (backs cx jx jx)
                                          with Some s => Some s | None => go (g + ngroups x) r end end) g es
                          | _ => first_some (fun j => first_ending (sem cx e fuel g (j, B)) jx) (backs cx jx jx) end)).
-      { destruct e; try (apply try_alt_rel; auto). cbn [alts_of] in IHalts. rewrite refs_ok_alt in Hr. apply found_rel; auto. }
+      { destruct e; try (apply try_alt_rel; auto). cbn [alts_of] in IHalts. rewrite refs_ok_alt in Hr.
+        rewrite ngroups_alt in Hw. apply found_rel; auto. }
       match type of Hf with orel ?f1 ?f2 => destruct f1 as [s1|], f2 as [s2|] end; cbn in Hf; try contradiction; [|constructor].
       destruct (is_alt e && negb (const_size e)).
-      * destruct e; try constructor. cbn [alts_of] in IHalts. rewrite refs_ok_alt in Hr. apply split_rel; auto.
+      * destruct e; try constructor. cbn [alts_of] in IHalts. rewrite refs_ok_alt in Hr.
+        rewrite ngroups_alt in Hw. apply split_rel; auto.
       * apply lrel_one. split; [reflexivity|apply Hf].
     + cbn [sem].
       assert (Hf : orel (match e with
@@ -201,38 +226,42 @@ Proof.
                              | x :: r => match first_some (fun j => first_ending (sem cx x fuel g (j, B)) jx) (backs cx jx jx)
                                          with Some s => Some s | None => go (g + ngroups x) r end end) g es
                          | _ => first_some (fun j => first_ending (sem cx e fuel g (j, B)) jx) (backs cx jx jx) end)).
-      { destruct e; try (apply try_alt_rel; auto). cbn [alts_of] in IHalts. rewrite refs_ok_alt in Hr. apply found_rel; auto. }
+      { destruct e; try (apply try_alt_rel; auto). cbn [alts_of] in IHalts. rewrite refs_ok_alt in Hr.
+        rewrite ngroups_alt in Hw. apply found_rel; auto. }
       match type of Hf with orel ?f1 ?f2 => destruct f1 as [s1|], f2 as [s2|] end; cbn in Hf; try contradiction; [constructor|].
       apply lrel_one. split; auto.
-  - (* Repeat *) destruct IHe as [IHe _]. intros Hr fuel g [ix A] [jx B] Hab. cbn [refs_ok] in Hr. cbn [sem].
+  - (* Repeat *) destruct IHe as [IHe _]. intros Hr fuel g [ix A] [jx B] Hw Hab. cbn [refs_ok] in Hr. cbn [sem].
+    unfold wr_ok in Hw. cbn [ngroups] in Hw.
     assert (Hb : forall a b, srel a b -> lrel (sem cx e fuel g a) (sem cx e fuel g b)) by (intros; apply IHe; auto).
     apply lrel_flat_map; [apply rep_must_rel; auto|]. intros a b Hs. destruct (N.eqb hi usize_max).
     + apply rep_opt_u_rel; auto.
     + apply rep_opt_b_rel; auto.
-  - intros _ fuel g [ix A] [jx B] [H1 H2]; cbn [fst snd] in *; subst. destruct k; cbn [sem].
+  - intros _ fuel g [ix A] [jx B] _ [H1 H2]; cbn [fst snd] in *; subst. destruct k; cbn [sem].
     + destruct (decode_at (c_text cx) jx) as [[cp len]|]; [|constructor]. destruct (existsb _ cps); [|constructor].
       apply lrel_one. split; auto.
     + destruct ((jx <=? length (c_text cx)) && only_newlines_from cx jx); [|constructor]. apply lrel_one. split; auto.
-  - (* Backref *) intros Hr fuel g0 [ix A] [jx B] [H1 H2]; cbn [fst snd] in *; subst. cbn [refs_ok] in Hr. cbn [sem].
+  - (* Backref *) intros Hr fuel g0 [ix A] [jx B] _ [H1 H2]; cbn [fst snd] in *; subst. cbn [refs_ok] in Hr. cbn [sem].
     destruct (rho_read A B g Hr H2) as [E1 E2]. rewrite E1, E2.
     destruct (getcap B (2 * N.to_nat g)); [|constructor]. destruct (getcap B (2 * N.to_nat g + 1)); [|constructor].
     destruct ((n <=? n0) && lit_at _ jx _); [|constructor]. apply lrel_one. split; auto.
-  - (* AtomicGroup *) destruct IHe as [IHe _]. intros Hr fuel g a b Hab. destruct a as [ix A], b as [jx B]. cbn [sem].
+  - (* AtomicGroup *) destruct IHe as [IHe _]. intros Hr fuel g a b Hw Hab. destruct a as [ix A], b as [jx B]. cbn [sem].
     apply lrel_firstn. apply IHe; auto.
-  - intros _ fuel g [ix A] [jx B] [H1 H2]; cbn [fst snd] in *; subst. cbn [sem]. apply lrel_one. split; cbn; auto.
-  - intros _ fuel g [ix A] [jx B] [H1 H2]; cbn [fst snd] in *; subst. cbn [sem].
+  - intros Hr fuel g [ix A] [jx B] Hw [H1 H2]; cbn [fst snd] in *; subst. cbn [sem]. apply lrel_one. split; cbn; auto.
+  - intros _ fuel g [ix A] [jx B] _ [H1 H2]; cbn [fst snd] in *; subst. cbn [sem].
     destruct ((jx =? c_pos cx) && negb (c_skipped cx)); [|constructor]. apply lrel_one. split; auto.
-  - intros Hr fuel g0 [ix A] [jx B] [H1 H2]; cbn [fst snd] in *; subst. cbn [refs_ok] in Hr. cbn [sem].
+  - intros Hr fuel g0 [ix A] [jx B] _ [H1 H2]; cbn [fst snd] in *; subst. cbn [refs_ok] in Hr. cbn [sem].
     destruct (rho_read A B g Hr H2) as [E1 _]. rewrite E1. destruct (getcap B (2 * N.to_nat g)); [|constructor].
     apply lrel_one. split; auto.
   - (* Conditional *) destruct IHe1 as [IH1 _]. destruct IHe2 as [IH2 _]. destruct IHe3 as [IH3 _].
-    intros (Hr1 & Hr2 & Hr3) fuel g a b Hab. destruct a as [ix A], b as [jx B]. cbn [sem].
-    assert (Hl : lrel (sem cx e1 fuel g (ix, A)) (sem cx e1 fuel g (jx, B))) by (apply IH1; auto).
-    inversion Hl as [|x y l l' Hxy Hll]; [apply IH3; auto|apply IH2; auto].
-  - intros _ fuel g0 [ix A] [jx B] _. constructor.
+    intros (Hr1 & Hr2 & Hr3) fuel g a b Hw Hab. destruct a as [ix A], b as [jx B]. cbn [sem].
+    unfold wr_ok in Hw. cbn [ngroups] in Hw.
+    assert (Hl : lrel (sem cx e1 fuel g (ix, A)) (sem cx e1 fuel g (jx, B))) by (apply IH1; auto; eapply wrl_sub; eauto; lia).
+    inversion Hl as [|x y l l' Hxy Hll]; [apply IH3; auto|apply IH2; auto]; eapply wrl_sub; eauto; lia.
+  - intros _ fuel g0 [ix A] [jx B] _ _. constructor.
 Qed.
 
-Theorem param : forall e, refs_ok e -> forall fuel g a b, srel a b -> lrel (sem cx e fuel g a) (sem cx e fuel g b).
+Theorem param : forall e, refs_ok e -> forall fuel g a b, wr_ok g e -> srel a b ->
+  lrel (sem cx e fuel g a) (sem cx e fuel g b).
 Proof. intros e. apply (proj1 (param_aux e)). Qed.
 
 End Param.
